@@ -207,6 +207,14 @@ func encodeTop(vc *VC, fn *ssa.Function, d *Decl) []inputVar {
 	}
 	vc.oblige("cover-pre", "", "true", "false", "the preconditions, type invariants and axioms are satisfiable", []string{"vacuity"}, "").Expect = "sat"
 	fr.encodeBody(st, "true")
+	// an at-call clause that matched no call of the function pins nothing: the call it speaks about is gone
+	for _, cl := range d.Get("at-call") {
+		txt := strings.TrimSpace(cl.Text)
+		if strings.HasPrefix(txt, "dynamic") || fr.atCallSeen[cl] {
+			continue
+		}
+		vc.oblige("at-call-missing", sanitizeLit(firstWord(txt)), "true", "false", "the function no longer makes the call this clause is about: at-call "+txt, fr.props, posOf(fn, fn.Pos()))
+	}
 	if len(fr.rets) == 0 {
 		return inputs
 	}
@@ -270,6 +278,13 @@ func encodeTop(vc *VC, fn *ssa.Function, d *Decl) []inputVar {
 		fr.frameObligations(items, st, final, rg, pos)
 	}
 	return inputs
+}
+
+func firstWord(s string) string {
+	if i := strings.IndexAny(s, " \t"); i > 0 {
+		return s[:i]
+	}
+	return s
 }
 
 type letBinding struct {
